@@ -282,9 +282,13 @@ def main(tier, replay=None):
     ]
     res.coverage["partial"] = True
     res.coverage["explanation"] = (
-        "proved for all inputs: termination of the tokenizer (no OutOfFuel; F5 regression), reader invariant, "
-        "well-ordered/non-overlapping token ranges. `slice = lexeme` and `re-lexing` are explored on every run by the "
-        "implementation-level oracle over all generated inputs and tied to the model by the differential run.")
+        "proved for all inputs (Props/C11.v): the tokenizer terminates (F5 regression) and never panics "
+        "(lex_all_done), the reader invariant, consumed text = slice between positions, slice = lexeme for every "
+        "token (token_text_exact), well-ordered non-overlapping ranges, comments between neighbours, Latin-1 files "
+        "one column per byte, value_at of bit strings.  Re-lexing (relex) is proved for delimiters and character "
+        "literals only and otherwise explored on every run by the implementation-level oracle over all generated "
+        "inputs; the model is tied to the code by the differential run.")
+    res.coverage["unproved"] = ["relex for identifiers, keywords, abstract/bit-string/string literals (explored by the oracle)"]
     res.assumptions = [
         "a token's lexeme is compared up to letter case for basic identifiers and keywords; strings and extended "
         "identifiers are re-escaped (doubled quote/backslash); a line break inside a token counts as LF",
